@@ -9,6 +9,9 @@ package kcp
 // out-of-band packets; encoders started just before the FEC id wrap.
 
 import (
+	"sync"
+	"io"
+	"syscall"
 	"sync/atomic"
 	"testing"
 	"testing/synctest"
@@ -118,6 +121,132 @@ func TestVerifC09(t *testing.T) {
 		})
 		rec.sample(sc.Part, 1, sessBrief(&sc))
 	}
+	// ---- a socket error in the middle of a transmit batch -----------------------
+	// The batch transmit path (hook H5 puts it on the in-memory transport) is told
+	// by the "kernel" that only a prefix of a batch went out, and the next call
+	// fails once with ENOBUFS. Whatever the session does next, what it has put on
+	// the wire so far must stay what the README describes: no datagram twice, no
+	// FEC id twice, every nonce fresh (the wire decoder's always-on rules).
+	for q := 0; q < env.pickN(48, 480); q++ {
+		idx := caseIdx
+		caseIdx++
+		if !env.mine(idx) {
+			continue
+		}
+		rng := rec.seed(uint64(idx), 91)
+		sc := genSessScenario(rng, idx, "batch-write-error")
+		sc.Link.Batch = true
+		sc.TxFaults = true
+		sc.Link.Cipher = cipherNames[q%len(cipherNames)]
+		if sc.Link.D == 0 || q%2 == 0 {
+			sc.Link.D, sc.Link.P = pick(rng, []int{2, 3, 10}), pick(rng, []int{1, 2, 3})
+		}
+		sc.CfgC.Mtu, sc.CfgS.Mtu = 0, 0
+		sc.CfgC.SndWnd, sc.CfgS.RcvWnd = max(sc.CfgC.SndWnd, 32), max(sc.CfgS.RcvWnd, 32)
+		sc.CfgC.RateLimit = 0
+		sc.Net = netProfile{Name: "clean", DelayMin: 5, DelayMax: 8, HealAt: 1}
+		sc.BytesCS = max(sc.BytesCS, 60*1000)
+		sc.LimitMs = 20000
+		rec.beginCase(sc)
+		synctest.Test(t, func(t *testing.T) {
+			var fired atomic.Int64
+			hooks := &sessHooks{
+				pre: func(w *sessWorld, client *UDPSession) {
+					c, ok := client.conn.(*simConn)
+					if !ok || !c.batch {
+						return
+					}
+					at := rng.between(2, 12)
+					multi, armed, done := 0, false, false
+					prng := newRng(rng.u64())
+					c.batchMu.Lock()
+					c.batchPlan = func(n int) (int, error) {
+						switch {
+						case done:
+							return n, nil
+						case armed:
+							armed, done = false, true
+							fired.Add(1)
+							return 0, syscall.ENOBUFS
+						case n >= 2:
+							multi++
+							if multi == at {
+								armed = true
+								return prng.between(1, n-1), nil
+							}
+						}
+						return n, nil
+					}
+					c.batchMu.Unlock()
+				},
+			}
+			res := runSessScenario(t, rec, &sc, rng, hooks)
+			res.tally(rec)
+			rec.eval(1)
+			rec.count("transmit_batches_cut_short_then_failed", fired.Load())
+			if fired.Load() > 0 {
+				rec.nontrivial(hashAny(sc))
+			}
+		})
+		rec.sample("batch-write-error", 1, sessBrief(&sc))
+	}
+
+	// ---- the nonce source under concurrent callers --------------------------------
+	// Every session of the process draws its nonces from one generator; the
+	// sessions of a listener also share the key. Eight goroutines draw at the
+	// same time: no value may come out twice, within or across callers.
+	for q := 0; q < env.pickN(6, 48); q++ {
+		idx := caseIdx
+		caseIdx++
+		if !env.mine(idx) {
+			continue
+		}
+		kind := []string{"global", "aes", "chacha8"}[q%3]
+		desc := map[string]any{"case": idx, "part": "nonce-generator", "generator": kind, "callers": 8}
+		rec.beginCase(desc)
+		var g io.Reader
+		switch kind {
+		case "aes":
+			g = NewEntropyAES()
+		case "chacha8":
+			g = NewEntropyChacha8()
+		}
+		per := env.pickN(40000, 200000)
+		out := make([][][16]byte, 8)
+		var wg sync.WaitGroup
+		for i := range out {
+			out[i] = make([][16]byte, per)
+			wg.Add(1)
+			go func(dst [][16]byte) {
+				defer wg.Done()
+				for k := range dst {
+					if g == nil {
+						fillRand(dst[k][:])
+					} else {
+						io.ReadFull(g, dst[k][:])
+					}
+				}
+			}(out[i])
+		}
+		wg.Wait()
+		seen := make(map[[16]byte]struct{}, 8*per)
+		repeats := 0
+		for i := range out {
+			for _, v := range out[i] {
+				if _, dup := seen[v]; dup {
+					repeats++
+				}
+				seen[v] = struct{}{}
+			}
+		}
+		rec.eval(1)
+		rec.count("nonce_values_drawn_by_concurrent_callers", int64(8*per))
+		if repeats > 0 {
+			rec.violationf(desc, "C09 nonce repeated", "the %s generator handed out %d of %d 16-byte values more than once to 8 concurrent callers", kind, repeats, 8*per)
+		}
+		rec.nontrivial(hashAny(desc))
+	}
+
 	// a packet class the monitor never saw makes the run inconclusive
 	for _, cls := range []string{"wire_push_segments", "wire_push_retransmissions", "wire_ack_segments", "wire_wask_segments", "wire_wins_segments", "wire_fec_data_packets", "wire_fec_parity_packets", "wire_oob_packets", "wire_fec_groups_parity_verified"} {
 		if rec.getCount(cls) == 0 && rec.env.nshards == 1 {
